@@ -85,14 +85,21 @@ func c16Check(ci interface{}) lib.Outcome {
 // ---- threshold bound of MultipleMatch
 
 type c16ThrCase struct {
-	Thr   float64 `json:"thr"`
-	Files []int   `json:"files"`
+	Thr   float64  `json:"thr"`
+	Files []int    `json:"files"`
 	Query c15Query `json:"query"`
+	// Later > 0: the classifier is created with Thr and its exported Threshold field is then set to Later (the field
+	// is public and the repository's own tests adjust it on a live classifier); the bound is Later from then on.
+	Later float64 `json:"later,omitempty"`
 }
 
 func c16ThrGen(t *rapid.T) interface{} {
 	n := lib.IntN(t, 2, 10, "nfiles")
-	return &c16ThrCase{Thr: float64(lib.IntN(t, 50, 100, "thrPct")) / 100, Files: lib.Ints(t, n, n, 0, 400, "files"),
+	later := 0.0
+	if lib.IntN(t, 0, 2, "thresholdChangedLater") == 0 {
+		later = float64(lib.IntN(t, 50, 100, "laterPct")) / 100
+	}
+	return &c16ThrCase{Later: later, Thr: float64(lib.IntN(t, 50, 100, "thrPct")) / 100, Files: lib.Ints(t, n, n, 0, 400, "files"),
 		Query: c15Query{Kind: lib.PickStr(t, []string{"edited", "inserted", "inserted", "concat", "variant", "arbitrary", "twice", "twice"}, "kind"), File: lib.IntN(t, 0, 40, "file"), File2: lib.IntN(t, 0, 40, "file2"),
 			Arg: lib.IntN(t, 0, 100, "arg"), Edits: lib.Ints(t, 1, 40, 0, 3000, "edits")}}
 }
@@ -113,11 +120,17 @@ func c16ThrCheck(ci interface{}) lib.Outcome {
 	}
 	text, qdesc := c15QueryText(c.Query, files)
 	n := 0
+	bound := c.Thr
+	if c.Later > 0 && c.Later <= 1 {
+		cl.Threshold = c.Later
+		bound = c.Later
+		qdesc += fmt.Sprintf(" (classifier created with threshold %v, Threshold field set to %v afterwards)", c.Thr, c.Later)
+	}
 	for _, hdr := range []bool{false, true} {
 		for _, m := range cl.MultipleMatch(text, hdr) {
 			n++
-			if m.Confidence < c.Thr {
-				return lib.Outcome{Violation: fmt.Sprintf("threshold %v, query %s: MultipleMatch returned {%s %v}, below the threshold", c.Thr, qdesc, m.Name, m.Confidence)}
+			if m.Confidence < bound {
+				return lib.Outcome{Violation: fmt.Sprintf("threshold %v, query %s: MultipleMatch returned {%s %v}, below the threshold", bound, qdesc, m.Name, m.Confidence)}
 			}
 		}
 	}
@@ -137,6 +150,6 @@ func TestVerif_C16_OwnCorpus(t *testing.T) {
 
 func TestVerif_C16_Threshold(t *testing.T) {
 	lib.Run(t, lib.Spec{ID: "C16", Part: "threshold-bound",
-		Rule: "archives of 2-10 small license files, thresholds 0.50-1.00, queries = edited / filler-inserted / concatenated / re-presented license texts, the same license twice with different amounts of change, and arbitrary license-word text; oracle: no MultipleMatch result (either header mode) has Confidence < Threshold; non-trivial = at least one match returned",
+		Rule: "archives of 2-10 small license files, thresholds 0.50-1.00, queries = edited / filler-inserted / concatenated / re-presented license texts, the same license twice with different amounts of change, and arbitrary license-word text; in a third of the cases the exported Threshold field is changed after construction; oracle: no MultipleMatch result (either header mode) has Confidence < Threshold (the current one); non-trivial = at least one match returned",
 		New:  func() interface{} { return &c16ThrCase{} }, Gen: c16ThrGen, Check: c16ThrCheck})
 }
